@@ -24,7 +24,8 @@ pub struct Case {
     pub must_succeed: Vec<usize>,
 }
 
-const BACKLOG: usize = 32;
+/// more retained requests than this without any RESET count as an unbounded backlog (the crate retains 32)
+const BACKLOG_SANITY: usize = 64;
 
 fn sock(v6: bool, limit: u16, rnd: Vec<u16>) -> SockCfg {
     SockCfg { v6, max_live: limit, rnd, inactivity_ms: 10_000, ..SockCfg::default() }
@@ -162,7 +163,9 @@ fn abandon_strategy(_tier: Tier) -> BoxedStrategy<Case> {
                     let mut must = vec![];
                     for j in 0..n2 {
                         must.push(first + j);
-                        conns.push(McConn { from: 0, to: 1, at_ms: 7000, patience_ms: Some(20_000), n_a: c2[j].0, n_b: c2[j].1, hold_ms: 100, key: c2[j].2 });
+                        // one after the other (each completes within a round trip): the number of connects one socket may
+                        // have pending towards one address is an internal constant, not part of the property
+                        conns.push(McConn { from: 0, to: 1, at_ms: 7000 + 400 * j as u32, patience_ms: Some(20_000), n_a: c2[j].0, n_b: c2[j].1, hold_ms: 100, key: c2[j].2 });
                     }
                     let n_acc = if variant == 1 { early.len() + n2 } else { n2 };
                     for j in 0..n_acc {
@@ -271,6 +274,43 @@ pub fn oracle(case: &Case, res: &McResult) -> Outcome {
         evs.sort_by_key(|e| (e.0, e.1));
         let mut expect_match: BTreeMap<usize, usize> = BTreeMap::new(); // accept call -> arrival
         let mut expect_rst: BTreeSet<usize> = BTreeSet::new();
+        // The size of the backlog is not part of the property ("a fixed backlog"): it is read off the first RESET the
+        // listener sends (the number of requests the model holds at that arrival) and must then hold throughout.
+        // Without any RESET the backlog is at least what was retained; more than BACKLOG_SANITY retained requests
+        // without a RESET count as unbounded.
+        // (requests from unbound addresses come one per address: the address identifies them even if the RESET's id is
+        // wrong; requests of real clients are identified by their id)
+        let rst_for = |ar: &Arrival| res.log.iter().any(|r| r.from_stack && r.src == la && r.dst == ar.src && r.t_us >= ar.t_us && r.pkt.as_ref().is_some_and(|p| p.ptype == refparse::ST_RESET && (ar.ci.is_none() || p.conn_id == ar.id)));
+        let backlog: usize = {
+            let mut q: VecDeque<usize> = VecDeque::new();
+            let mut waiting: VecDeque<usize> = VecDeque::new();
+            let mut acc: BTreeSet<(std::net::SocketAddr, u16)> = BTreeSet::new();
+            let mut found = usize::MAX;
+            'pre: for (_, _, ev) in &evs {
+                match ev {
+                    Ev::Call(k) => waiting.push_back(*k),
+                    Ev::Abandon(k) => waiting.retain(|x| x != k),
+                    Ev::Syn(i) => {
+                        if arrivals[*i].dup && (acc.contains(&(arrivals[*i].src, arrivals[*i].id)) || q.iter().any(|j| arrivals[*j].src == arrivals[*i].src && arrivals[*j].id == arrivals[*i].id)) { continue; }
+                        if waiting.is_empty() && !arrivals[*i].dup && rst_for(&arrivals[*i]) { found = q.len(); break 'pre; }
+                        q.push_back(*i);
+                    }
+                }
+                while let (Some(&i), Some(_)) = (q.front(), waiting.front()) {
+                    q.pop_front();
+                    if acc.contains(&(arrivals[i].src, arrivals[i].id)) { continue; }
+                    waiting.pop_front();
+                    acc.insert((arrivals[i].src, arrivals[i].id));
+                }
+                if q.len() > BACKLOG_SANITY {
+                    viol!("backlog-unbounded", "listener {l}: {} unaccepted requests are retained and no RESET was ever sent: the backlog is not bounded (sanity limit {})", q.len(), BACKLOG_SANITY);
+                }
+            }
+            found
+        };
+        if backlog == 0 {
+            viol!("reset-below-backlog", "listener {l}: a RESET was sent for a request that arrived when no unaccepted request was retained at all");
+        }
         if unlimited {
             let mut q: VecDeque<usize> = VecDeque::new();
             let mut waiting: VecDeque<usize> = VecDeque::new();
@@ -283,7 +323,7 @@ pub fn oracle(case: &Case, res: &McResult) -> Outcome {
                         // a duplicate of a request that is queued, or accepted and still alive (by construction), is ignored
                         if arrivals[*i].dup && (accepted_ids.contains(&(arrivals[*i].src, arrivals[*i].id)) || q.iter().any(|j| arrivals[*j].src == arrivals[*i].src && arrivals[*j].id == arrivals[*i].id)) { continue; }
                         if !waiting.is_empty() {
-                        } else if q.len() >= BACKLOG {
+                        } else if q.len() >= backlog {
                             expect_rst.insert(*i);
                             continue;
                         }
@@ -341,7 +381,7 @@ pub fn oracle(case: &Case, res: &McResult) -> Outcome {
             for (i, ar) in arrivals.iter().enumerate() {
                 let rst = res.log.iter().find(|r| r.from_stack && r.src == la && r.dst == ar.src && r.pkt.as_ref().is_some_and(|p| p.ptype == refparse::ST_RESET && p.conn_id == ar.id) && r.t_us >= ar.t_us);
                 match (expect_rst.contains(&i), rst) {
-                    (true, None) => viol!("backlog-no-reset", "listener {l}: the request from {} (id {}) arrived at t={} us when {} unaccepted requests were already retained, but no RESET was sent", ar.src, ar.id, ar.t_us, BACKLOG),
+                    (true, None) => viol!("backlog-no-reset", "listener {l}: the request from {} (id {}) arrived at t={} us when {} unaccepted requests were already retained, but no RESET was sent (the first RESET of this run fixed the backlog at that number)", ar.src, ar.id, ar.t_us, backlog),
                     (true, Some(r)) => {
                         if r.t_us != ar.t_us { viol!("backlog-reset-late", "listener {l}: the RESET for the refused request from {} (id {}) left at t={} us, the request arrived at t={} us", ar.src, ar.id, r.t_us, ar.t_us); }
                         let p = r.pkt.as_ref().unwrap();
@@ -352,7 +392,7 @@ pub fn oracle(case: &Case, res: &McResult) -> Outcome {
                         // a RESET for a retained request (or a duplicate of one that was refused earlier: same id)
                         let refused_same = arrivals.iter().enumerate().any(|(j, o)| expect_rst.contains(&j) && o.src == ar.src && o.id == ar.id);
                         if !refused_same {
-                            viol!("reset-below-backlog", "listener {l}: a RESET (log #{}) was sent for the request from {} (id {}) although fewer than {} requests were retained when it arrived", r.idx, ar.src, ar.id, BACKLOG);
+                            viol!("reset-below-backlog", "listener {l}: a RESET (log #{}) was sent for the request from {} (id {}) although fewer than {} requests (the backlog this run's first RESET revealed) were retained when it arrived", r.idx, ar.src, ar.id, backlog);
                         }
                     }
                     (false, None) => {}
@@ -431,7 +471,7 @@ def_check!(Backlog, "backlog", backlog_strategy);
 def_check!(Abandon, "abandon", abandon_strategy);
 
 pub fn run(ctx: &mut Ctx) {
-    ctx.rule("MC on a loss-free network with events placed at distinct instants (SYNs at even, accept calls and their abandonment at odd milliseconds). fifo: 2..20/31 connect calls from 1..3 client sockets, accept calls (30 % abandoned) before and after the requests, duplicate SYNs re-injected while the original is queued or alive, listener limit 64 or 2..6. backlog: up to 12 real and up to 76 raw SYNs from unbound addresses, 0..2 early and 0..44 late accept calls. abandon: connect calls abandoned while their SYN is lost / queued, accept calls abandoned before any request, then 1..4 simultaneous connects that must succeed. Oracle: a reference model of the two FIFO queues (32 requests) predicts for every accept call which request it receives and for every request whether a RESET leaves at its arrival instant; every Ok connect has exactly one accepted stream delivering its token and the two streams carry each other's keyed bytes to completion; an accepted request whose connector still waits completes that connect. non-trivial = two or more pairs, a backlog RESET, or a post-abandon success; distinct by outcome hash");
+    ctx.rule("MC on a loss-free network with events placed at distinct instants (SYNs at even, accept calls and their abandonment at odd milliseconds). fifo: 2..20/31 connect calls from 1..3 client sockets, accept calls (30 % abandoned) before and after the requests, duplicate SYNs re-injected while the original is queued or alive, listener limit 64 or 2..6. backlog: up to 12 real and up to 76 raw SYNs from unbound addresses, 0..2 early and 0..44 late accept calls. abandon: connect calls abandoned while their SYN is lost / queued, accept calls abandoned before any request, then 1..4 connects, one after the other, that must succeed. Oracle: a reference model of the two FIFO queues (32 requests) predicts for every accept call which request it receives and for every request whether a RESET leaves at its arrival instant; every Ok connect has exactly one accepted stream delivering its token and the two streams carry each other's keyed bytes to completion; an accepted request whose connector still waits completes that connect. non-trivial = two or more pairs, a backlog RESET, or a post-abandon success; distinct by outcome hash");
     ctx.assume("SYNs of one socket leave in the order of its connect calls (refused calls send none); duplicates arrive while the original is queued or its connection alive (connections are held >= 3 s, duplicates injected within 2.5 s)");
     ctx.replay_corpus::<Fifo>();
     ctx.replay_corpus::<Backlog>();
